@@ -1,5 +1,6 @@
 SPECIFICATION MCSpec
 CONSTANTS
+  MaxFailed = 1
   MaxPrev = 4
   MaxDecodes = 2
   Canonical = TRUE
